@@ -140,7 +140,28 @@ func runCheck(o checkOpts) int {
 	}
 	var runs []unitRun
 	var funcs []string
+	var unitErrsEarly []string
 	for _, blk := range prog.Contracts.Order {
+		if hasProp(blk.Prop, o.prop) && strings.HasPrefix(blk.Sub, "lit ") {
+			// a function literal verified as its own unit against its contract
+			fi := prog.Funcs[blk.Key]
+			if fi == nil || (o.only != "" && blk.Key != o.only) {
+				continue
+			}
+			var ord int
+			fmt.Sscanf(blk.Sub, "lit %d", &ord)
+			lit := litByOrdinal(fi, ord)
+			if lit == nil {
+				unitErrsEarly = append(unitErrsEarly, fmt.Sprintf("%s/%s %s: the function has no such literal any more", o.prop, blk.Key, blk.Sub))
+				continue
+			}
+			blk.Bound = true
+			funcs = append(funcs, blk.Key+" "+blk.Sub)
+			u, e := runUnitLit(prog, fi, blk, o.prop, "", nil, lit)
+			u.finish()
+			runs = append(runs, unitRun{u, e})
+			continue
+		}
 		if !hasProp(blk.Prop, o.prop) || blk.Sub != "" {
 			continue
 		}
@@ -172,7 +193,7 @@ func runCheck(o checkOpts) int {
 		runs = append(runs, lemmaRun(prog, lm, o.prop))
 	}
 	var obs []*Obligation
-	var unitErrs []string
+	unitErrs := append([]string(nil), unitErrsEarly...)
 	for _, r := range runs {
 		if r.err != "" {
 			unitErrs = append(unitErrs, fmt.Sprintf("%s%s: %s", r.u.Name, r.u.Suffix, r.err))
